@@ -1,0 +1,54 @@
+//go:build verif
+
+// Contracts for gvc (/verif). Comment-only: this file adds no declarations.
+
+package os
+
+// C17 sweep: zero-annotation panic-freedom obligations for the module's functions,
+// for every argument value.
+//@ func isExist
+//@   props C17
+//@ func isNotExist
+//@   props C17
+//@ func mkdirOpts.SetDefaultOptions
+//@   props C17
+//@ func mkdir
+//@   props C17
+//@ func mkdirAll
+//@   props C17
+//@ func remove
+//@   props C17
+//@ func removeAll
+//@   props C17
+//@ func chmodOpts.SetDefaultOptions
+//@   props C17
+//@ func chmod
+//@   props C17
+//@ func statOpts.SetDefaultOptions
+//@   props C17
+//@ func stat
+//@   props C17
+//@ func exists
+//@   props C17
+//@ func IsDir
+//@   props C17
+//@ func IsRegular
+//@   props C17
+//@ func statOrLstat
+//@   props C17
+//@ func mktempOpt.SetDefaultOptions
+//@   props C17
+//@ func TempDir
+//@   props C17
+//@ func TempFile
+//@   props C17
+//@ func optionalTempPattern
+//@   props C17
+//@ func specialModesFromIterable
+//@   props C17
+//@ func specialModesToList
+//@   props C17
+//@ func statMap
+//@   props C17
+//@ func stNum
+//@   props C17
